@@ -228,8 +228,21 @@ class VObj(object):
         return "VObj(%s)" % self.name
 
 
+class IdObj(object):
+    """A vertex object with the default identity hash (address based), as a
+    user's own vertex class would have."""
+
+    def __init__(self, name):
+        self.name = name
+
+    def __repr__(self):
+        return "IdObj(%s)" % self.name
+
+
 def vertex_objects(names, kind):
     """name -> vertex object handed to rig."""
+    if kind == "idobj":
+        return dict((n, IdObj(n)) for n in names)
     if kind == "str":
         return dict((n, n) for n in names)
     if kind == "tuple":
